@@ -4,15 +4,28 @@ import json, os
 V = os.path.dirname(os.path.dirname(os.path.abspath(__file__)))
 BASE = "cd /repo && /venv/bin/python -m pytest -ra -q -p no:cacheprovider --timeout=900 --continue-on-collection-errors"
 
+TECH = "contract-based deductive verification: sidecar contracts on the real functions, VCs generated from /repo's AST on every run (pyvc), discharged by z3 5.1 with cvc5 1.4 as fallback; bounded stand-in / ground tiers labelled separately"
+NOTE = "Trusted: z3/cvc5, the pyvc VC generator, CPython, the library theories and assumed contracts listed in the evidence file (gmpy2, fpylll, protobuf runtime, hashlib); Python ints are exact so no machine-arithmetic assumption."
 CLAIMS = {
   # id: (category, technique, text, note, design_ref)
-  "C01": ("proof",
-          "contract-based deductive verification: VCs generated from /repo's AST by pyvc, discharged by z3/cvc5",
-          "Every factor-producing function of rsa_util/special_case_factoring is under a sidecar contract whose postcondition "
-          "(product equals n, proper divisor where the code guards it) is discharged for all inputs; implicit exceptions are obligations.",
-          "Trusted: z3/cvc5, the pyvc VC generator, the library theories (gmpy2.isqrt/gcd/..., listed in the evidence), "
-          "fpylll via an assumed shape-only contract.",
-          "DESIGN.md 4/C01"),
+  "C01": ("proof", TECH,
+          "Every factor-producing function (FermatFactor, FactorHighAndLowBitsEqual, CheckContinuedFraction, CheckFraction, Pollardpm1, CheckLowHammingWeight, FactorWithGuess, CheckSmallUpperDifferences) has a discharged postcondition 'recorded pair multiplies to n' (proper divisor where the code guards it); every util.AttachFactors call site of the 17 RSA Check methods carries discharged call-site obligations (same artifact, factors multiply to / divide the modulus) and 'attached implies positive entry'. BatchGCD is an assumed contract decided by the bounded tier; the CheckGCD proper-divisor clause is bounded only.",
+          NOTE, "DESIGN.md 4/C01"),
+  "C06": ("proof", TECH,
+          "CheckSizes/CheckExponents/CheckROCA/CheckROCAVariant flag exactly their closed-form criterion (loop-body obligations over an arbitrary artifact); ROCAKeyDetector._HasDiscreteLog/IsWeak and ROCAKeyVariantDetector.IsWeak are proved against their definitions (39/48 primes, Euclidean witnesses). Denylist fingerprints, keypair table and EC criteria: see evidence (bounded / not yet under contract).",
+          NOTE, "DESIGN.md 4/C06"),
+  "C09": ("proof", TECH,
+          "util.Bytes2Int/Int2Bytes are proved against the (length, big-endian value) bytes theory incl. round trip; EC-side (HiddenNumberParams, TransformOrderLen) see evidence.",
+          NOTE, "DESIGN.md 4/C09"),
+  "C16": ("proof", TECH,
+          "util.GetTestResult/SetTestResult/GetAttachedInfo/AttachInfo/GetHighestSeverity are proved against their bodies over the protobuf view (frame + monotonicity + no duplicate names); BaseCheck._CreateTestResult and every RSA Check method: exactly one SetTestResult per artifact per call on that artifact's own test_info, named after the check, with the check's severity (documented LowHammingWeight exception), return value == OR of the results written.",
+          NOTE, "DESIGN.md 4/C16"),
+  "C18": ("proof", TECH,
+          "Implicit-exception obligations (ZeroDivisionError, IndexError, KeyError, TypeError on None, ValueError of isqrt/shift/to_bytes, invert of non-unit) and 'no unexpected raise' are discharged for every function under a total contract, under the property's well-formedness precondition (moduli >= 2^63).",
+          NOTE + " Termination is not claimed except where a variant is listed.", "DESIGN.md 4/C18"),
+  "C19": ("proof", TECH,
+          "Inverse2exp, InverseSqrt2exp, Sqrt2exp (Hensel lifting with explicit witnesses), ContinuedFraction (matrix invariant, convergent recurrence, last convergent equals the fraction) and DivmodRounded are proved for all inputs.",
+          NOTE, "DESIGN.md 4/C19"),
 }
 NOT_YET = {}
 NA = {
